@@ -2,9 +2,12 @@
 
 Same specification and binding as C14 (see c14.py): Types.tla Join with the
 laws JoinUpper (the combined type is a supertype of both), JoinIdem and
-JoinAllUpper (folding over a sequence as unify_all does), checked by TLC; the
-real `unify` must return exactly the specified join (or nothing where the
-specification has none) on all pairs of Full(1) and seeded deeper pairs."""
+JoinAllUpper (folding over a sequence as unify_all does), checked by TLC.
+Binding (impl -> spec): whatever the real `unify` returns on all pairs of
+Full(1) and on seeded deeper pairs is judged by TLC with the specification's
+Sub: it must be a supertype of both arguments, and the argument itself when
+both are equal.  (Whether it equals the specification's own Join is recorded
+as information: a better join is not a violation.)"""
 from props import c14
 
 
